@@ -6,14 +6,16 @@ def vclass(v):
     return (v["prop"], v["tag"], v["pattern"].split(":")[0], v["op"])
 
 
-def shrink(execute, cfg, ops, target, budget=600, step=None):
+def shrink(execute, cfg, ops, target, budget=600, step=None, wall=90.0):
     """execute(cfg, ops) -> list of violations.  Keeps a candidate only if a violation of the
     same class (property, invariant tag, pattern, operation kind) persists.
     Returns (cfg, ops, executions)."""
+    import time
     runs = [0]
+    t_end = time.time() + wall
 
     def fails(c, o):
-        if runs[0] >= budget:
+        if runs[0] >= budget or time.time() > t_end:
             return False
         runs[0] += 1
         try:
